@@ -113,6 +113,19 @@ class World:
         self.announced: list = []
         self.failures: set[str] = set()
         self.cmds: dict[int, DatasetTransmitCommand] = {}
+        # the controller side that numbers the commands: a real Bridge object (no sockets) whose transmit()/fetch() build them;
+        # Transfer.tla identifies a command by its idx, so the numbers the Bridge hands out must be pairwise different
+        import cascade.executor.bridge as BR
+        self.bridge_out: list = []
+        fake_sender = types.SimpleNamespace(hosts={"data." + h: (None, daddr(h)) for h in hosts},
+                                            send=lambda to, m: self.bridge_out.append((to, m)), add_host=lambda *a: None)
+        saved = BR.Listener, BR.ReliableSender
+        BR.Listener, BR.ReliableSender = (lambda url: types.SimpleNamespace(address=CTL)), (lambda addr, grace: fake_sender)
+        try:
+            self.bridge = BR.Bridge(CTL, 0)       # the real constructor, no executors to wait for
+        finally:
+            BR.Listener, BR.ReliableSender = saved
+        self.bridge_idx: set[int] = set()
 
     def close(self):
         # let every loop thread that is still blocked in wait() run to its end against THIS world's store
@@ -215,8 +228,21 @@ class World:
             if c["k"] == "p":
                 self.net.flight.setdefault(daddr(c["src"]), []).append((ser_message(DatasetPurge(ds)),))
             else:
-                cmd = DatasetTransmitCommand(source=c["src"], target=c["tgt"] if c["k"] == "x" else "controller",
-                                             daddress=self._addr(c["tgt"]) if c["k"] == "x" else CTL, ds=ds, idx=i)
+                del self.bridge_out[:]
+                if c["k"] == "x":
+                    self.bridge.transmit(ds, c["src"], c["tgt"])
+                else:
+                    self.bridge.fetch(ds, c["src"])
+                (to, real), = self.bridge_out
+                want = DatasetTransmitCommand(source=c["src"], target=c["tgt"] if c["k"] == "x" else "controller",
+                                              daddress=self._addr(c["tgt"]) if c["k"] == "x" else CTL, ds=ds, idx=real.idx)
+                if to != "data." + c["src"] or real != want:
+                    self.failures.add("bridge_built_wrong_command")
+                if real.idx in self.bridge_idx:
+                    self.failures.add("bridge_reused_command_idx")
+                self.bridge_idx.add(real.idx)
+                # the data servers see the command under the spec's number (the position in the scenario)
+                cmd = DatasetTransmitCommand(source=real.source, target=real.target, daddress=real.daddress, ds=real.ds, idx=i)
                 self.net.flight.setdefault(daddr(c["src"]), []).append((ser_message(cmd),))
         elif act == "Tick":
             Clock.now += (GRACE_MS + 1) * 1_000_000
